@@ -6,8 +6,16 @@ open HydroVerif HydroVerif.C14
 requests (floats as 16 hex digits / `nan`, rationals as `p/q` / `nan`):
   kernel  P rain maxgap eps hstart nvalh [secs] [vals]   -> `ok [h0,...]` | `err <guard>`
   kernelq P rain maxgap eps hstart nvalh [secs] [vals]   (exact rationals)
-  wrapper P rain maxgap eps [secs] [vals]                -> `ok hstart [h0,...]` | `err <guard>`
-  wrapperidx P rain maxgap eps unit [raw] [utcoffset] [vals] -> `ok hstart [h0,...] [wallsecs]` (index as stored)
+  wrapper P rain maxgap eps [secs] [vals]                -> `ok hstart [h0,...] [label0,...]` | `err <guard>`
+                                                            (values and labels are those of `wrapperSeries`)
+  wrapperarg P rain maxgap(p/q) eps [secs] [vals]        -> as `wrapper`, maxgapsec as the Python number passed (np.int32 cast)
+  pyx P rain maxgap eps hstart [secs] [vals] [hvalues]   -> `ok [buffer]` | `err <guard> [buffer]` (Cython entry point)
+  hist [secs] [vals] [hvalues] op;op;...                 -> `[buffer] [code,...]` with op = S:k:t | V:k:hex | X:hex |
+                                                            C:P:rain:maxgap:eps:hstart (history on one set of buffers)
+  wrapperidx P rain maxgap eps unit [raw] [utcoffset] [vals] -> `ok hstart [h0,...] [labels] [wallsecs]` (index as stored)
+  kmiss P rain maxgap eps hstart nvalh [secs] [vals]     -> `ok [m0,...] [m0,...] [m0,...]` | `err <guard>`: missing pattern
+                                                            (1 = missing) of the control skeleton on the marks, of the Float
+                                                            kernel, of the exact-rational kernel on the stand-in series
   scan hstart [secs]                                     -> index of `varindex` after the start scan | `none`
 -/
 
@@ -22,6 +30,21 @@ def errName : Err → String
   | .noInterval => "noInterval"
   | .badMaxgap => "badMaxgap"
   | .tooShort => "tooShort"
+  | .lengthMismatch => "lengthMismatch"
+
+def opTok? (s : String) : Option (Op Float) :=
+  match s.splitOn ":" with
+  | ["S", k, t] => match k.toNat?, t.toInt? with
+    | some k, some t => some (.setSec k t)
+    | _, _ => none
+  | ["V", k, v] => match k.toNat?, floatTok? v with
+    | some k, some v => some (.setVal k (optF v))
+    | _, _ => none
+  | ["X", v] => (floatTok? v).map fun v => .scribble (optF v)
+  | ["C", p, rain, mg, eps, hs] => match p.toInt?, rain.toInt?, mg.toInt?, floatTok? eps, hs.toInt? with
+    | some p, some rain, some mg, some eps, some hs => some (.call ⟨p, rain, mg, eps⟩ hs)
+    | _, _, _, _, _ => none
+  | _ => none
 
 def fmtOF : Option Float → String
   | none => "nan"
@@ -55,6 +78,19 @@ def handle (toks : List String) : String :=
       | .ok r => "ok " ++ fmtList (r.map fmtOF)
       | .error e => "err " ++ errName e
     | _, _, _, _, _, _, _, _ => "bad-op"
+  | ["kmiss", p, rain, mg, eps, hs, nh, secs, vals] =>
+    match p.toInt?, rain.toInt?, mg.toInt?, floatTok? eps, hs.toInt?, nh.toInt?, parseIntList? secs, parseFloatList? vals with
+    | some p, some rain, some mg, some eps, some hs, some nh, some secs, some vals =>
+      if secs.length ≠ vals.length then "bad-op" else
+      let c : Cfg Float := ⟨p, rain, mg, eps⟩
+      let obs := mkObs secs (vals.map optF)
+      let bits (l : List Bool) := fmtList (l.map fun b => if b then "1" else "0")
+      match kernelMiss c.P c.rain hs nh (marks c obs), kernel c hs nh obs, kernel (cfgQ c) hs nh (obs.map (toQ c)) with
+      | .ok m1, .ok o2, .ok o3 => "ok " ++ bits m1 ++ " " ++ bits (o2.map Option.isNone) ++ " " ++ bits (o3.map Option.isNone)
+      | .error e1, .error e2, .error e3 =>
+        if e1 = e2 ∧ e2 = e3 then "err " ++ errName e1 else "differ " ++ errName e1 ++ " " ++ errName e2 ++ " " ++ errName e3
+      | _, _, _ => "differ"
+    | _, _, _, _, _, _, _, _ => "bad-op"
   | ["kernelq", p, rain, mg, eps, hs, nh, secs, vals] =>
     match p.toInt?, rain.toInt?, mg.toInt?, ratTok? eps, hs.toInt?, nh.toInt?, parseIntList? secs, parseRatOptList? vals with
     | some p, some rain, some mg, some eps, some hs, some nh, some secs, some vals =>
@@ -67,10 +103,38 @@ def handle (toks : List String) : String :=
     match p.toInt?, rain.toInt?, mg.toInt?, floatTok? eps, parseIntList? secs, parseFloatList? vals with
     | some p, some rain, some mg, some eps, some secs, some vals =>
       if secs.length ≠ vals.length then "bad-op" else
-      match wrapper (α := Float) ⟨p, rain, mg, eps⟩ (mkObs secs (vals.map optF)) with
-      | .ok (hs, r) => s!"ok {hs} " ++ fmtList (r.map fmtOF)
-      | .error e => "err " ++ errName e
+      match wrapper (α := Float) ⟨p, rain, mg, eps⟩ (mkObs secs (vals.map optF)),
+          wrapperSeries (α := Float) ⟨p, rain, mg, eps⟩ (mkObs secs (vals.map optF)) with
+      | .ok (hs, _), .ok ser => s!"ok {hs} " ++ fmtList (ser.map fun x => fmtOF x.2) ++ " " ++ fmtIntList (ser.map (·.1))
+      | .error e, _ => "err " ++ errName e
+      | _, .error e => "err " ++ errName e
     | _, _, _, _, _, _ => "bad-op"
+  | ["wrapperarg", p, rain, mgq, eps, secs, vals] =>
+    match p.toInt?, rain.toInt?, ratTok? mgq, floatTok? eps, parseIntList? secs, parseFloatList? vals with
+    | some p, some rain, some mgq, some eps, some secs, some vals =>
+      if secs.length ≠ vals.length then "bad-op" else
+      let obs := mkObs secs (vals.map optF)
+      match wrapperArg (α := Float) p rain mgq eps obs,
+          wrapperSeries (α := Float) ⟨p, rain, maxgapOfArg mgq, eps⟩ obs with
+      | .ok (hs, _), .ok ser => s!"ok {hs} " ++ fmtList (ser.map fun x => fmtOF x.2) ++ " " ++ fmtIntList (ser.map (·.1))
+      | .error e, _ => "err " ++ errName e
+      | _, .error e => "err " ++ errName e
+    | _, _, _, _, _, _ => "bad-op"
+  | ["pyx", p, rain, mg, eps, hs, secs, vals, hv] =>
+    match p.toInt?, rain.toInt?, mg.toInt?, floatTok? eps, hs.toInt?, parseIntList? secs, parseFloatList? vals,
+        parseFloatList? hv with
+    | some p, some rain, some mg, some eps, some hs, some secs, some vals, some hv =>
+      match pyxVar2h (α := Float) ⟨p, rain, mg, eps⟩ hs secs (vals.map optF) (hv.map optF) with
+      | (buf, none) => "ok " ++ fmtList (buf.map fmtOF)
+      | (buf, some e) => "err " ++ errName e ++ " " ++ fmtList (buf.map fmtOF)
+    | _, _, _, _, _, _, _, _ => "bad-op"
+  | ["hist", secs, vals, hv, ops] =>
+    match parseIntList? secs, parseFloatList? vals, parseFloatList? hv, allSome ((ops.splitOn ";").map opTok?) with
+    | some secs, some vals, some hv, some ops =>
+      let r := run (α := Float) ⟨secs, vals.map optF, hv.map optF⟩ ops
+      fmtList (r.1.hvalues.map fmtOF) ++ " " ++
+        fmtList (r.2.map fun | none => "0" | some e => errName e)
+    | _, _, _, _ => "bad-op"
   | ["wrapperidx", p, rain, mg, eps, unit, raws, offs, vals] =>
     match p.toInt?, rain.toInt?, mg.toInt?, floatTok? eps, unitTok? unit, parseIntList? raws, parseIntList? offs,
         parseFloatList? vals with
@@ -78,9 +142,11 @@ def handle (toks : List String) : String :=
       if raws.length ≠ vals.length ∨ raws.length ≠ offs.length then "bad-op" else
       let stamps : List (Stamp Float) := (raws.zip (offs.zip (vals.map optF)))
       let secs := (obsOfIndex u stamps).map (·.1)
-      match wrapperIdx (α := Float) ⟨p, rain, mg, eps⟩ u stamps with
-      | .ok (hs, r) => s!"ok {hs} " ++ fmtList (r.map fmtOF) ++ " " ++ fmtIntList secs
-      | .error e => "err " ++ errName e ++ " " ++ fmtIntList secs
+      match wrapperIdx (α := Float) ⟨p, rain, mg, eps⟩ u stamps, seriesIdx (α := Float) ⟨p, rain, mg, eps⟩ u stamps with
+      | .ok (hs, _), .ok ser =>
+        s!"ok {hs} " ++ fmtList (ser.map fun x => fmtOF x.2) ++ " " ++ fmtIntList (ser.map (·.1)) ++ " " ++ fmtIntList secs
+      | .error e, _ => "err " ++ errName e ++ " " ++ fmtIntList secs
+      | _, .error e => "err " ++ errName e ++ " " ++ fmtIntList secs
     | _, _, _, _, _, _, _, _ => "bad-op"
   | ["scan", hs, secs] =>
     match hs.toInt?, parseIntList? secs with
